@@ -12,9 +12,12 @@ CHECKS = {
              "key universe of 2..24 (thorough 120) keys with all four ciphers and duplicated materials; inputs: valid, truncated, bit-flipped, "
              "extended, random, foreign-key streams. Non-trivial = the live list has >=2 distinct salt sizes and (the matching key was not at the head "
              "of the snapshot for that client IP, or the input is derived-invalid: truncated / flipped / valid under a key not in the list). "
-             "Distinct = distinct canonical JSON of the whole case.",
+             "Distinct = distinct canonical JSON of the whole case. "
+             "(FuzzAuth) byte strings decoded as raw opening bytes or as plaintext encrypted under one of six configured keys and then damaged at a fuzzer-chosen offset, judged by the same reference; "
+             "run as a rapid property in both tiers and as a coverage-guided native fuzz target (150 s) in the thorough tier (evaluations then include the fuzzer's executions; its corpus size is reported as distinct cases).",
         assumptions=["AEAD/HKDF strength (forgery resistance) is assumed", "in-memory StreamConn stands in for a TCP socket"],
-        units=[unit("props", ["Auth"], "C01")],
+        units=[unit("props", ["Auth", "FuzzAuth"], "C01"),
+               dict(bin="props-fuzz", tests=["FuzzAuth"], run="^$", fuzz="FuzzC01Auth", fuzztime="150s", shards=(1, 1), timeout=(400, 900), tiers=["thorough"], crash_is_violation=True)],
     ),
 }
 
@@ -215,9 +218,13 @@ CHECKS["C18"] = dict(
          "(UDP) 1..14 operations: raw datagrams of 0..65507 bytes, authenticated plaintext from the same grammar, valid datagrams, replies of 0..65507 bytes from a sender on every local address class "
          "(IPv4/IPv6 loopback, 192.0.2.2, ULA, zoned link-local), listener shutdown at any point. Oracle: process alive, no recovered-panic log record, a canary connection/datagram is still served, "
          "StreamServe returns only with zero handlers in flight, Handle returns, and the server's goroutines and sockets are back to the per-case baseline within 4 s. "
-         "Non-trivial = input that reaches address parsing (authenticates), or a reply from a non-IPv4-loopback source, or a shutdown with work in flight.",
+         "Non-trivial = input that reaches address parsing (authenticates), or a reply from a non-IPv4-loopback source, or a shutdown with work in flight. "
+         "(FuzzTCP, FuzzUDP) byte strings used as authenticated plaintext (address header + payload, fuzzer-chosen chunk plan) through the TCP handler with in-memory connections, and as datagrams (raw or authenticated, "
+         "first-packet and known-association paths) through the packet handler on an in-memory socket with a loopback-only validator; rapid properties in both tiers, coverage-guided native fuzz targets (150 s each) in the thorough tier.",
     assumptions=["destinations in generated headers are local only (no egress); unresolvable names are answered by the in-process DNS", "address classes absent on the host are skipped and counted"],
-    units=[unit("props", ["TCP", "UDP"], "C18", crash_is_violation=True, wedge_is_violation=True)],
+    units=[unit("props", ["TCP", "UDP", "FuzzTCP", "FuzzUDP"], "C18", crash_is_violation=True, wedge_is_violation=True),
+           dict(bin="props-fuzz", tests=["FuzzTCP"], run="^$", fuzz="FuzzC18TCP", fuzztime="150s", shards=(1, 1), timeout=(400, 900), tiers=["thorough"], crash_is_violation=True),
+           dict(bin="props-fuzz", tests=["FuzzUDP"], run="^$", fuzz="FuzzC18UDP", fuzztime="150s", shards=(1, 1), timeout=(400, 900), tiers=["thorough"], crash_is_violation=True)],
 )
 
 CHECKS["C19"] = dict(
